@@ -28,7 +28,8 @@ CLAIMED = {
          "descriptor __set__, and symbol add/discard/move through Module._NodeSet are proved to keep both indexes equal to a scan."),
  "C13": ("proof", "4.C13", "ByteInterval.symbolic_expressions_at/_at_offset are proved to yield exactly one (interval, offset, expression) "
          "triple per stored expression whose address/offset is in the query, in increasing offset order (nothing without an address); "
-         "section/module/IR scope proved to be the union over contained intervals up to the allowed omission (MUST<=result<=MAY, no repeats). "
+         "section/module/IR scope proved to be the union over contained intervals up to the allowed omission (MUST<=result<=MAY, no repeats); "
+         "the lazily maintained interval index those scopes go through (LazyIntervalTree.add/discard/get) is under contract too. "
          "Mapping mutations (mixins over a SortedDict) are covered by the bounded history stand-in."),
  "C18": ("proof", "4.C18", "deep_eq of the block classes, Symbol, SymAddrConst and SymAddrAddr is characterised exactly against the real bodies (two "
          "layers: symbols and expressions call deep_eq on their referents / symbols, modelled as the relation the lower layer "
@@ -47,7 +48,8 @@ CLAIMED = {
          "round trip of edges by the bounded lock-step stand-in."),
  "C16": ("proof", "4.C16", "Primitives of the wrapper collections (ListWrapper/SetWrapper/DictWrapper, module list insert/append/remove/"
          "__delitem__, node sets, _from_iterable, __or__) are proved to behave as the built-in list/set/dict on their contents while "
-         "maintaining ownership; the collections.abc mixin surface is compared in lock step with built-ins by the bounded stand-in."),
+         "maintaining ownership; the collections.abc mixin surface (incl. slice assignment and bulk operations whose argument is a tuple, a generator or "
+         "the live owning collection of another owner) is compared in lock step with built-ins by the bounded stand-in."),
  "C01": ("proof", "4.IO", "Proved for all inputs: the 8-byte header is written and checked as documented; block/symbol/symbolic-expression/"
          "AuxData leaf writers and readers, the container writers (one message per child, CFG vertices and edges) and the "
          "construction segments of the container readers agree with the schema field by field, so their composition is the identity on "
